@@ -50,6 +50,7 @@ func main() {
 	timeout := fs.Duration("timeout", 10*time.Minute, "overall deadline per harness")
 	out := fs.String("out", "", "write JSON result here (default stdout)")
 	alloc := fs.Int("alloc-bound", 8, "largest symbolic allocation size explored")
+	allV := fs.Bool("all-violations", false, "report every violating path (no de-duplication by label)")
 	fs.Parse(os.Args[2:])
 
 	ro := &runOutput{Repo: *repo, Package: *pkg}
@@ -85,7 +86,7 @@ func main() {
 		cfg := &runConfig{
 			workers: *workers, maxPaths: *maxPaths, maxSteps: *maxSteps, loopCap: *loopCap,
 			timeoutMs: *qTimeout, known: km, params: pm, samples: *samples, solverBin: *solver,
-			deadline: time.Now().Add(*timeout),
+			deadline: time.Now().Add(*timeout), allViolations: *allV,
 		}
 		ro.Results = append(ro.Results, m.runHarness(*pkg, f, cfg))
 	}
